@@ -319,6 +319,10 @@ def translate(repo: str) -> str:
     modes = proxy_modes(repo)
     btr = BlockTr(std, modes)
     main = btr.stmts(body[2:])
+    for fam in (4, 6):                    # always emit all classes (the spec-side vocabulary refers to them)
+        for p in ("is_loopback", "is_private", "is_global"):
+            std.prop(fam, p)
+    std.prop(6, "ipv4_mapped")
     killed, alive = after_hook(repo)
 
     o = ["(* GENERATED by harness/translators/block.py -- do not edit.",
